@@ -144,7 +144,7 @@ func TestVerifC13_p384(t *testing.T) {
 			}
 		}
 	})
-	r.Sample(map[string]string{"op": "ScalarBaseMult", "k": sc[len(sc)/2].Name})
+	r.Sample(map[string]string{"op": "ScalarBaseMult", "k": sc[len(sc)/2].Name, "k_hex": sc[len(sc)/2].V.Text(16)})
 
 	// ---- variable base: SC x PT
 	verifmc.ParallelFor(len(all)*len(pts), func(idx int) {
@@ -179,7 +179,7 @@ func TestVerifC13_p384(t *testing.T) {
 				map[string]string{"k": verifmc.FullHex(kb), "Px": P.x.Text(16), "Py": P.y.Text(16)})
 		}
 	})
-	r.Sample(map[string]string{"op": "ScalarMult", "k": "n-1", "P": pts[len(pts)-1].name})
+	r.Sample(map[string]string{"op": "ScalarMult", "k": "n-1", "k_hex": new(big.Int).Sub(N, big.NewInt(1)).Text(16), "P": pts[len(pts)-1].name, "Px": pts[len(pts)-1].x.Text(16), "Py": pts[len(pts)-1].y.Text(16)})
 
 	// ---- Add on PT x PT, Double on PT
 	verifmc.ParallelFor(len(pts)*len(pts), func(idx int) {
@@ -286,7 +286,7 @@ func TestVerifC13_p384(t *testing.T) {
 				map[string]string{"m": verifmc.FullHex(mb), "n": verifmc.FullHex(nb), "Qx": Q.x.Text(16), "Qy": Q.y.Text(16)})
 		}
 	})
-	r.Sample(map[string]string{"op": "CombinedMult", "m": "1", "n": "1", "Q": "1G"})
+	r.Sample(map[string]string{"op": "CombinedMult", "m": "01", "n": "01", "Q": "1G", "Qx": pts[1].x.Text(16), "Qy": pts[1].y.Text(16)})
 
 	r.RequireCounter("add_P_eq_Q", 5)
 	r.RequireCounter("add_P_eq_negQ", 5)
